@@ -9,6 +9,7 @@ import (
 	sdk "github.com/cosmos/cosmos-sdk/types"
 	authtypes "github.com/cosmos/cosmos-sdk/x/auth/types"
 	banktypes "github.com/cosmos/cosmos-sdk/x/bank/types"
+	gogotypes "github.com/cosmos/gogoproto/types"
 
 	"github.com/regen-network/regen-ledger/x/data/v3"
 	basetypes "github.com/regen-network/regen-ledger/x/ecocredit/v3/base/types/v1"
@@ -210,6 +211,14 @@ func (g *Gen) Bootstrap(e *eng.Engine, refresh func()) {
 	if len(cIDs) > 0 {
 		ex("basket", &baskettypes.MsgCreate{Curator: A[0], Name: "NCT", CreditTypeAbbrev: "C", AllowedClasses: cIDs, DisableAutoRetire: true, Fee: basketFee})
 		ex("basket", &baskettypes.MsgCreate{Curator: A[1], Name: "RET", CreditTypeAbbrev: "C", AllowedClasses: cIDs[:1], DisableAutoRetire: false, Fee: basketFee, DateCriteria: &baskettypes.DateCriteria{YearsInThePast: 20}})
+	}
+	if len(cIDs) > 0 {
+		// a moving start-date window (10 years) and a fixed minimum date
+		ex("basket", &baskettypes.MsgCreate{Curator: A[3], Name: "WIN", CreditTypeAbbrev: "C", AllowedClasses: cIDs, DisableAutoRetire: true, Fee: basketFee,
+			DateCriteria: &baskettypes.DateCriteria{StartDateWindow: &gogotypes.Duration{Seconds: 3650 * 86400}}})
+		md, _ := gogotypes.TimestampProto(time.Date(2010, 5, 5, 5, 5, 5, 5, time.UTC))
+		ex("basket", &baskettypes.MsgCreate{Curator: A[4], Name: "MIN", CreditTypeAbbrev: "C", AllowedClasses: cIDs, DisableAutoRetire: false, Fee: basketFee,
+			DateCriteria: &baskettypes.DateCriteria{MinStartDate: md}})
 	}
 	if len(bioIDs) > 0 {
 		ex("basket", &baskettypes.MsgCreate{Curator: A[2], Name: "BIOB", CreditTypeAbbrev: "BIO", AllowedClasses: bioIDs, DisableAutoRetire: true, Fee: basketFee})
